@@ -1580,15 +1580,209 @@ def _roll_then_set_first(tree):
                     and isinstance(a.value.args[1], ast.Constant) and a.value.args[1].value == 1 \
                     and isinstance(b, ast.Assign) and len(b.targets) == 1 and isinstance(b.targets[0], ast.Subscript) \
                     and isinstance(b.targets[0].value, ast.Name) and b.targets[0].value.id == a.targets[0].id \
-                    and isinstance(b.targets[0].slice, ast.Constant) and b.targets[0].slice.value == 0 \
+                    and (isinstance(b.targets[0].slice, ast.Constant) and b.targets[0].slice.value == 0
+                         or _first_k(b.targets[0].slice) is not None and isinstance(b.value, ast.Constant)) \
                     and not any(isinstance(x, ast.Name) and x.id == a.targets[0].id for x in ast.walk(b.value)):
                 ins = ast.Call(func=a.value.func.__class__(value=a.value.func.value, attr="insert", ctx=ast.Load()) if isinstance(a.value.func, ast.Attribute) else a.value.func,
                                args=[a.value.args[0], ast.Constant(value=0), b.value], keywords=[])
                 sl = ast.Subscript(value=ins, slice=ast.Slice(lower=ast.Constant(value=0), upper=ast.UnaryOp(op=ast.USub(), operand=ast.Constant(value=1)), step=None), ctx=ast.Load())
-                block[i:i + 2] = [ast.copy_location(ast.Assign(targets=a.targets, value=sl, lineno=a.lineno), a)]
+                repl = [ast.copy_location(ast.Assign(targets=a.targets, value=sl, lineno=a.lineno), a)]
+                k = _first_k(b.targets[0].slice)
+                if k is not None and k > 1:  # a[0:k] = c  ==  a[0] = c (the wrapped entry) and a[1:k] = c
+                    tgt = ast.Subscript(value=ast.Name(id=a.targets[0].id, ctx=ast.Load()),
+                                        slice=ast.Slice(lower=ast.Constant(value=1), upper=ast.Constant(value=k), step=None), ctx=ast.Store())
+                    repl.append(ast.copy_location(ast.Assign(targets=[tgt], value=_dc(b.value), lineno=b.lineno), b))
+                block[i:i + 2] = repl
                 n += 1
                 continue
             i += 1
+    return n
+
+
+def _first_k(sl):
+    """the k of a slice [0:k] / [:k] with a literal k >= 1, else None"""
+    if isinstance(sl, ast.Slice) and sl.step is None and (sl.lower is None or (isinstance(sl.lower, ast.Constant) and sl.lower.value == 0)) \
+            and isinstance(sl.upper, ast.Constant) and isinstance(sl.upper.value, int) and sl.upper.value >= 1:
+        return sl.upper.value
+    return None
+
+
+def _annassign_to_assign(tree):
+    """inside a function `x: T = v` is `x = v` (annotations of locals are never evaluated)"""
+    n = 0
+    for fn in [f for f in ast.walk(tree) if isinstance(f, (ast.FunctionDef, ast.AsyncFunctionDef))]:
+        for block in _blocks(fn):
+            for i, st in enumerate(block):
+                if isinstance(st, ast.AnnAssign) and st.value is not None and isinstance(st.target, (ast.Name, ast.Attribute, ast.Subscript)):
+                    block[i] = ast.copy_location(ast.Assign(targets=[st.target], value=st.value, lineno=st.lineno), st)
+                    n += 1
+    return n
+
+
+def _unpack_generator_over_literals(tree):
+    """`a, b = (E(v) for v in (p, q))` (or the list form) is `a, b = (E(p), E(q))`: a comprehension over a literal tuple of pure
+    expressions, as many as there are targets, no filter, the loop variable a plain name that E only reads"""
+    n = 0
+    for block in _blocks(tree):
+        for st in block:
+            if not (isinstance(st, ast.Assign) and len(st.targets) == 1 and isinstance(st.targets[0], (ast.Tuple, ast.List))):
+                continue
+            v = st.value
+            if not (isinstance(v, (ast.GeneratorExp, ast.ListComp)) and len(v.generators) == 1):
+                continue
+            g = v.generators[0]
+            if g.ifs or g.is_async or not isinstance(g.target, ast.Name) or not isinstance(g.iter, (ast.Tuple, ast.List)):
+                continue
+            elts = g.iter.elts
+            if len(elts) != len(st.targets[0].elts) or not all(is_pure(e) for e in elts) or any(isinstance(e, ast.Starred) for e in elts):
+                continue
+            if any(isinstance(x, (ast.Lambda, ast.ListComp, ast.SetComp, ast.DictComp, ast.GeneratorExp, ast.NamedExpr)) for x in ast.walk(v.elt)):
+                continue
+            outs = []
+            for e in elts:
+                class _S(ast.NodeTransformer):
+                    def visit_Name(self, nd, e=e, nm=g.target.id):
+                        return _dc(e) if nd.id == nm and isinstance(nd.ctx, ast.Load) else nd
+                outs.append(_S().visit(_dc(v.elt)))
+            st.value = ast.copy_location(ast.Tuple(elts=outs, ctx=ast.Load()), v)
+            n += 1
+    return n
+
+
+def _expand_double_star_locals(tree):
+    """`common = {"a": x, "b": y}` (or dict(a=x, b=y)) bound once to pure values and used only as `f(..., **common)` /
+    `{**common, ...}`: each use is the keywords / items written out (same keys, same order, values not re-bound in between)"""
+    n = 0
+    for fn in [f for f in ast.walk(tree) if isinstance(f, (ast.FunctionDef, ast.AsyncFunctionDef))]:
+        assigns = {}
+        for st in ast.walk(fn):
+            if isinstance(st, ast.Assign) and len(st.targets) == 1 and isinstance(st.targets[0], ast.Name):
+                assigns.setdefault(st.targets[0].id, []).append(st)
+        for name, sts in assigns.items():
+            if len(sts) != 1:
+                continue
+            st = sts[0]
+            v = st.value
+            if isinstance(v, ast.Dict) and v.keys and all(isinstance(k, ast.Constant) and isinstance(k.value, str) and k.value.isidentifier() for k in v.keys):
+                items = [(k.value, val) for k, val in zip(v.keys, v.values)]
+            elif isinstance(v, ast.Call) and isinstance(v.func, ast.Name) and v.func.id == "dict" and not v.args and v.keywords \
+                    and all(k.arg is not None for k in v.keywords):
+                items = [(k.arg, k.value) for k in v.keywords]
+            else:
+                continue
+            if not all(is_pure(val) for _, val in items):
+                continue
+            uses = [x for x in ast.walk(fn) if isinstance(x, ast.Name) and x.id == name and isinstance(x.ctx, ast.Load)]
+            stars = []
+            for c in ast.walk(fn):
+                if isinstance(c, ast.Call):
+                    stars += [(c, k) for k in c.keywords if k.arg is None and isinstance(k.value, ast.Name) and k.value.id == name]
+                elif isinstance(c, ast.Dict):
+                    stars += [(c, i) for i, (k, val) in enumerate(zip(c.keys, c.values)) if k is None and isinstance(val, ast.Name) and val.id == name]
+            if not uses or len(uses) != len(stars):
+                continue  # used in some other way (passed on, mutated, read)
+            free = set()
+            for _, val in items:
+                free |= {x.id for x in ast.walk(val) if isinstance(x, ast.Name)}
+            rebound = [x for x in ast.walk(fn) if isinstance(x, ast.Name) and x.id in free and isinstance(x.ctx, (ast.Store, ast.Del))
+                       and getattr(x, "lineno", 0) > st.lineno]
+            if rebound:
+                continue
+            for c, k in stars:
+                if isinstance(c, ast.Call):
+                    if any(kw.arg in dict(items) for kw in c.keywords if kw.arg):
+                        break
+                    i = c.keywords.index(k)
+                    c.keywords[i:i + 1] = [ast.keyword(arg=key, value=_dc(val)) for key, val in items]
+                else:
+                    c.keys[k:k + 1] = [ast.Constant(value=key) for key, _ in items]
+                    c.values[k:k + 1] = [_dc(val) for _, val in items]
+            else:
+                for block in _blocks(fn):
+                    if st in block:
+                        block.remove(st)
+                        if not block:
+                            block.append(ast.Pass())
+                n += 1
+    return n
+
+
+def _count_loops_to_while(tree):
+    """`for i in itertools.count(k): if not C: break; BODY` (no continue in BODY, i not assigned in it)  ->
+    `i = k; while C: BODY; i += 1`"""
+    n = 0
+    for block in _blocks(tree):
+        i = 0
+        while i < len(block):
+            st = block[i]
+            if isinstance(st, ast.For) and not st.orelse and isinstance(st.target, ast.Name) and isinstance(st.iter, ast.Call) \
+                    and ast.unparse(st.iter.func) in ("itertools.count", "count") and len(st.iter.args) <= 1 and not st.iter.keywords \
+                    and st.body and isinstance(st.body[0], ast.If) and not st.body[0].orelse and len(st.body[0].body) == 1 \
+                    and isinstance(st.body[0].body[0], ast.Break):
+                rest = st.body[1:]
+                v = st.target.id
+                own = lambda x: not any(isinstance(a, (ast.For, ast.While)) and a is not st and any(a is y for y in ast.walk(st))
+                                        and any(x is z for z in ast.walk(a)) for a in ast.walk(st))
+                bad = [x for b in rest for x in ast.walk(b) if (isinstance(x, (ast.Continue, ast.Break)) and own(x))
+                       or (isinstance(x, ast.Name) and x.id == v and isinstance(x.ctx, (ast.Store, ast.Del)))]
+                if not bad and rest:
+                    t = st.body[0].test
+                    test = t.operand if isinstance(t, ast.UnaryOp) and isinstance(t.op, ast.Not) else ast.UnaryOp(op=ast.Not(), operand=t)
+                    start = st.iter.args[0] if st.iter.args else ast.Constant(value=0)
+                    init = ast.copy_location(ast.Assign(targets=[ast.Name(id=v, ctx=ast.Store())], value=start, lineno=st.lineno), st)
+                    init.lineno = init.end_lineno = max(1, st.lineno - 1)  # (rules order statements by line: the initialisation comes first)
+                    inc = ast.AugAssign(target=ast.Name(id=v, ctx=ast.Store()), op=ast.Add(), value=ast.Constant(value=1))
+                    wh = ast.copy_location(ast.While(test=test, body=rest + [ast.copy_location(inc, rest[-1])], orelse=[]), st)
+                    block[i:i + 1] = [init, wh]
+                    n += 1
+                    i += 2
+                    continue
+            i += 1
+    return n
+
+
+def _enumerate_slice_to_range(tree):
+    """a comprehension generator `for k, v in enumerate(S[a:], start=b)` (S a pure name / attribute chain, a and b integer
+    literals) is `for j in range(a, len(S))` with v = S[j] and k = j - a + b"""
+    n = 0
+    for comp in [c for c in ast.walk(tree) if isinstance(c, (ast.ListComp, ast.DictComp, ast.SetComp, ast.GeneratorExp))]:
+        for g in comp.generators:
+            it = g.iter
+            if not (isinstance(it, ast.Call) and isinstance(it.func, ast.Name) and it.func.id == "enumerate" and 1 <= len(it.args) <= 2
+                    and isinstance(g.target, ast.Tuple) and len(g.target.elts) == 2 and all(isinstance(e, ast.Name) for e in g.target.elts)):
+                continue
+            src = it.args[0]
+            b = it.args[1] if len(it.args) == 2 else next((k.value for k in it.keywords if k.arg == "start"), ast.Constant(value=0))
+            if any(k.arg != "start" for k in it.keywords):
+                continue
+            if not (isinstance(src, ast.Subscript) and isinstance(src.slice, ast.Slice) and src.slice.upper is None and src.slice.step is None
+                    and isinstance(src.value, (ast.Name, ast.Attribute)) and is_pure(src.value)):
+                continue
+            a = src.slice.lower or ast.Constant(value=0)
+            if not (isinstance(a, ast.Constant) and isinstance(a.value, int) and a.value >= 0 and isinstance(b, ast.Constant) and isinstance(b.value, int)):
+                continue
+            kname, vname = g.target.elts[0].id, g.target.elts[1].id
+            jname = "_j" + kname
+            shift = b.value - a.value
+            kexpr = ast.Name(id=jname, ctx=ast.Load()) if shift == 0 else ast.BinOp(
+                left=ast.Name(id=jname, ctx=ast.Load()), op=ast.Add() if shift > 0 else ast.Sub(), right=ast.Constant(value=abs(shift)))
+            vexpr = ast.Subscript(value=_dc(src.value), slice=ast.Name(id=jname, ctx=ast.Load()), ctx=ast.Load())
+
+            class _S(ast.NodeTransformer):
+                def visit_Name(self, nd):
+                    if isinstance(nd.ctx, ast.Load) and nd.id == kname:
+                        return _dc(kexpr)
+                    if isinstance(nd.ctx, ast.Load) and nd.id == vname:
+                        return _dc(vexpr)
+                    return nd
+            g.target = ast.Name(id=jname, ctx=ast.Store())
+            g.iter = ast.Call(func=ast.Name(id="range", ctx=ast.Load()),
+                              args=[ast.Constant(value=a.value), ast.Call(func=ast.Name(id="len", ctx=ast.Load()), args=[_dc(src.value)], keywords=[])], keywords=[])
+            g.ifs = [_S().visit(x) for x in g.ifs]
+            for fld in ("elt", "key", "value"):
+                if hasattr(comp, fld):
+                    setattr(comp, fld, _S().visit(getattr(comp, fld)))
+            n += 1
     return n
 
 
@@ -1667,6 +1861,137 @@ def _match_to_if(tree):
     return n
 
 
+class _FoldConstants(ast.NodeTransformer):
+    """constant tests left behind by substituting a literal for a name: `None is not None`, `not False`, `True or X`,
+    `if <literal>:`.  Only what is decided by literals alone, and only where no evaluation is skipped that was not skipped
+    before (a literal first operand decides `or` / `and` by short-circuit)."""
+
+    @staticmethod
+    def _lit(n):
+        return isinstance(n, ast.Constant) and (n.value is None or isinstance(n.value, (bool, int, float, str)))
+
+    def visit_Compare(self, n):
+        self.generic_visit(n)
+        if len(n.ops) == 1 and self._lit(n.left) and self._lit(n.comparators[0]):
+            a, b = n.left.value, n.comparators[0].value
+            op = n.ops[0]
+            singleton = lambda v: v is None or isinstance(v, bool)
+            if isinstance(op, (ast.Is, ast.IsNot)) and (singleton(a) or singleton(b)):
+                same = a is b
+                return ast.copy_location(ast.Constant(value=same if isinstance(op, ast.Is) else not same), n)
+            if isinstance(op, (ast.Eq, ast.NotEq)) and type(a) is type(b):
+                return ast.copy_location(ast.Constant(value=(a == b) if isinstance(op, ast.Eq) else (a != b)), n)
+        return n
+
+    def visit_UnaryOp(self, n):
+        self.generic_visit(n)
+        if isinstance(n.op, ast.Not) and self._lit(n.operand):
+            return ast.copy_location(ast.Constant(value=not n.operand.value), n)
+        return n
+
+    def visit_BoolOp(self, n):
+        self.generic_visit(n)
+        stop = isinstance(n.op, ast.Or)
+        vals = list(n.values)
+        while len(vals) > 1 and self._lit(vals[0]):
+            if bool(vals[0].value) == stop:
+                return vals[0]  # decided by the first operand; nothing after it is evaluated
+            vals = vals[1:]  # a neutral first operand drops out
+        if len(vals) == 1:
+            return vals[0]
+        n.values = vals
+        return n
+
+    def visit_IfExp(self, n):
+        self.generic_visit(n)
+        if self._lit(n.test):
+            return n.body if n.test.value else n.orelse
+        return n
+
+    def _block(self, stmts):
+        out = []
+        for st in stmts:
+            st = self.visit(st)
+            if isinstance(st, ast.If) and self._lit(st.test):
+                out.extend(st.body if st.test.value else st.orelse)
+            else:
+                out.append(st)
+        return out or [ast.Pass()]
+
+    def generic_visit(self, node):
+        for fld in ("body", "orelse", "finalbody"):
+            blk = getattr(node, fld, None)
+            if isinstance(blk, list) and blk and isinstance(blk[0], ast.stmt):
+                new = self._block(blk)
+                setattr(node, fld, new if (fld == "body" or new != [ast.Pass()]) else ([] if all(isinstance(x, ast.Pass) for x in new) else new))
+        for fld, val in ast.iter_fields(node):
+            if fld in ("body", "orelse", "finalbody") and isinstance(val, list) and val and isinstance(val[0], ast.stmt):
+                continue
+            if isinstance(val, list):
+                nv = []
+                for v in val:
+                    if isinstance(v, ast.AST):
+                        v = self.visit(v)
+                        if v is None:
+                            continue
+                    nv.append(v)
+                val[:] = nv
+            elif isinstance(val, ast.AST):
+                nn = self.visit(val)
+                setattr(node, fld, nn)
+        return node
+
+
+def specialise_kwonly_defaults(trees):
+    """Whole-package step.  A keyword-only parameter with a literal default (`*, callback=None`, `*, overwrite=True`,
+    `*, by="selection_order"`) whose name is not used as a keyword argument at *any* call site of the package, and is not a string
+    key anywhere a `**kwargs` dict could pick it up, has its default in every call the package makes: inside the function the name
+    is the literal, and tests decided by literals are folded.  (How the library behaves when an outside caller passes a new,
+    optional argument is not what the properties quantify over.)  -> number of parameters specialised"""
+    used = set()
+    for t in trees:
+        for n in ast.walk(t):
+            if isinstance(n, ast.Call):
+                for k in n.keywords:
+                    if k.arg is not None:
+                        used.add(k.arg)
+            elif isinstance(n, ast.Constant) and isinstance(n.value, str) and n.value.isidentifier():
+                par = None  # strings used as dict keys / .get() keys / getattr names may name a keyword
+                used.add(("str", n.value))
+    str_keys = {v for k in used if isinstance(k, tuple) for v in [k[1]]}
+    n_spec = 0
+    for t in trees:
+        for fd in [f for f in ast.walk(t) if isinstance(f, (ast.FunctionDef, ast.AsyncFunctionDef))]:
+            if not fd.args.kwonlyargs:
+                continue
+            for a, d in zip(fd.args.kwonlyargs, fd.args.kw_defaults):
+                if d is None or not _FoldConstants._lit(d):
+                    continue
+                nm = a.arg
+                if nm in used or nm in str_keys:
+                    continue
+                if any(isinstance(x, ast.Name) and x.id == nm and isinstance(x.ctx, (ast.Store, ast.Del)) for x in ast.walk(fd)):
+                    continue
+                if any(isinstance(x, (ast.Global, ast.Nonlocal)) and nm in x.names for x in ast.walk(fd)):
+                    continue
+                inner_params = {y.arg for x in ast.walk(fd) if isinstance(x, (ast.FunctionDef, ast.Lambda)) and x is not fd
+                                for y in x.args.posonlyargs + x.args.args + x.args.kwonlyargs}
+                if nm in inner_params:
+                    continue
+
+                class _Sub(ast.NodeTransformer):
+                    def visit_Name(self, nd, nm=nm, d=d):
+                        if nd.id == nm and isinstance(nd.ctx, ast.Load):
+                            return ast.copy_location(ast.Constant(value=d.value), nd)
+                        return nd
+                fd.body = [_Sub().visit(b) for b in fd.body]
+                n_spec += 1
+            if n_spec:
+                _FoldConstants().generic_visit(fd)
+                ast.fix_missing_locations(fd)
+    return n_spec
+
+
 def normalize_module(tree):
     """in-place; returns a dict of counters (how many constructs were normalised) for the evidence"""
     repo_sigs = {}
@@ -1677,10 +2002,20 @@ def normalize_module(tree):
             init = next((m for m in nd.body if isinstance(m, ast.FunctionDef) and m.name == "__init__"), None)
             if init is not None:
                 repo_sigs[nd.name] = _sig_of(init)
+    n_ann = _annassign_to_assign(tree)
+    n_star = _expand_double_star_locals(tree)
+    n_cnt = _count_loops_to_while(tree)
+    n_enum = _enumerate_slice_to_range(tree)
+    n_unp = _unpack_generator_over_literals(tree)
     out = dict(kwargs_to_positional=_kwargs_to_positional(tree, repo_sigs), tuple_assignments_split=_split_tuple_assignments(tree),
                update_to_item=_update_to_item_assignment(tree), local_defs_to_lambdas=_local_defs_to_lambdas(tree),
                dict_zip_to_literal=_dict_zip_to_literal(tree))
     out["match_to_if"] = _match_to_if(tree)
+    out["annassign"] = n_ann
+    out["double_star_locals"] = n_star
+    out["count_loops"] = n_cnt
+    out["enumerate_slice"] = n_enum
+    out["unpack_generator"] = n_unp
     out["flag_loops_to_any"] = _flag_loops_to_any(tree)
     out["roll_then_set_first"] = _roll_then_set_first(tree)
     out["explicit_minmax"] = _explicit_minmax(tree)
